@@ -498,6 +498,31 @@ func c01Seed(name string) []gts.Sequence {
 
 func c01Eval(c c01Case) (ok bool, sig, detail string) {
 	switch c.Kind {
+	case "aligned":
+		// the record read from a stream in which it is preceded by a padding record of N bytes (every byte of the
+		// record in turn is the first byte of a 4096-byte read block): it reads exactly as it reads alone
+		alone := c01Seed(c.Seed)
+		if len(alone) == 0 {
+			return true, "", "seed missing"
+		}
+		text, err, pan := c01Write(alone)
+		if err != nil || pan != "" {
+			return false, "write-error", fmt.Sprintf("%v %s", err, pan)
+		}
+		pad := c07PadRecord(c.N)
+		if pad == nil {
+			return true, "", "padding too small"
+		}
+		got, errText, pan2 := c01Read(append(append([]byte(nil), pad...), text...))
+		if pan2 != "" || errText != "" || len(got) != len(alone)+1 {
+			return false, "block-alignment", fmt.Sprintf("seed %s behind a %d-byte padding record: %d records, error %q %s", c.Seed, c.N, len(got), errText, pan2)
+		}
+		for i := range alone {
+			if a, b := c01Dump(alone[i]), c01Dump(got[i+1]); a != b {
+				return false, "block-alignment", fmt.Sprintf("seed %s behind a %d-byte padding record reads differently: %s", c.Seed, c.N, firstDiff(a, b))
+			}
+		}
+		return true, "", ""
 	case "writers":
 		// one record through every writer entry point: the GenBank writer and the auto-detecting writer, given the
 		// record as a GenBank value, as a *GenBank pointer, and as a BasicSequence carrying the same fields
@@ -920,6 +945,16 @@ func init() {
 			}
 			for _, sd := range []string{"base", "gen-full", "gen-contig", "gen-both", "NC_001422_part.gb"} {
 				eval(c01Case{Kind: "writers", Seed: sd}, 555)
+			}
+			// block alignment of the reader: the rich generated record behind padding records of every size that puts one of its bytes at offset 4096
+			{
+				var sz int
+				if t, _, _ := c01Write(c01Seed("gen-rich")); t != nil {
+					sz = len(t)
+				}
+				for p := 0; p < sz; p++ {
+					eval(c01Case{Kind: "aligned", Seed: "gen-rich", N: 4096 - p}, 556)
+				}
 			}
 			// every subset of the optional blocks (definition, accession, version, dblink, keywords, source, references,
 			// comments, extra field, contig, feature table, origin)
